@@ -48,13 +48,15 @@ CFG = {
 
 
 @st.composite
-def step_strategy(draw, nd, nvdim, real):
-    group = draw(st.sampled_from(["geometry", "geometry", "data", "data", "meta"]))
+def step_strategy(draw, nd, nvdim, real, has_subs=False):
+    group = draw(st.sampled_from(["geometry", "geometry", "data", "data", "meta", "meta"]))
+    # region-level writes cannot take a mesh's subregions along: generated for meshes without subregions only
     kind = draw(st.sampled_from({
-        "geometry": ["translate", "scale", "rot", "rot", "region-translate", "region-scale", "region-scale"],
+        "geometry": ["translate", "scale", "rot", "rot"] + ([] if has_subs else ["region-translate", "region-scale",
+                                                                                  "region-scale"]),
         "data": ["array-assign", "array-inplace", "update", "array-partial", "valid-assign", "valid-inplace",
-                 "valid-norm", "norm-set"],
-        "meta": ["subregions", "units", "unit", "vdims", "bc", "tol", "mapping"],
+                 "valid-norm"] + (["norm-set"] if real else []),
+        "meta": ["subregions", "unit", "bc"] + ([] if has_subs else ["units", "tol"]) + (["vdims", "mapping"] if nvdim > 1 else []),
     }[group]))
     warm = draw(st.integers(0, 2)) > 0  # read the observables before this write (2/3 of the steps)
     if kind in ("array-assign", "array-inplace", "update", "array-partial"):
@@ -73,7 +75,7 @@ def step_strategy(draw, nd, nvdim, real):
         return [kind, warm, [draw(st.sampled_from([0.5, 2.0, 1.0, 4.0, 0.25, 3.0])) for _ in range(nd)]]
     if kind == "rot":
         a = draw(st.integers(0, nd - 1))
-        b = draw(st.integers(0, nd - 1))
+        b = (a + 1 + draw(st.integers(0, max(0, nd - 2)))) % nd  # != a whenever nd >= 2
         return [kind, warm, a, b, draw(st.sampled_from([1, 2, 3, -1]))]
     if kind == "subregions":
         return [kind, warm, draw(st.integers(0, 2**31)), draw(st.integers(0, 2))]
@@ -113,12 +115,12 @@ def aged_case(prop):
         elif nv == "ndim-or-1-or-3":
             nvdim = draw(st.sampled_from([1, nd, 3]))
         else:
-            nvdim = draw(st.integers(1, 3))
+            nvdim = draw(st.sampled_from([1, 1, nd, nd, 2, 3]))  # scalar or fully mapped vector: rotate90 applies
         dtype = "float" if cfg.get("real") else draw(st.sampled_from(["float", "float", "complex", "int"]))
         # region-level writes (mesh.region.translate / scale / units) apply to meshes without subregions only
         want_subs = cfg.get("subs") or draw(st.booleans())
         subs = draw(gen.index_boxes(g["n"], max_boxes=2, min_boxes=1)) if want_subs else []
-        script = draw(st.lists(step_strategy(nd, nvdim, dtype == "float"), min_size=1, max_size=5))
+        script = draw(st.lists(step_strategy(nd, nvdim, dtype == "float", bool(subs)), min_size=1, max_size=5))
         return {"prop": prop, "g": g, "subs": subs, "nvdim": nvdim, "vdims": draw(gen.vdims_strategy(nvdim)),
                 "perm": list(draw(st.permutations(range(max(nd, nvdim))))), "dtype": dtype,
                 "seed": draw(st.integers(0, 2**31)), "mask": draw(gen.mask_spec(nd)),
